@@ -84,6 +84,14 @@ class IterNode(Node1):
         return iter((self.name, self.payload))
 
 
+class Outer:
+    """only a namespace: the serialisable class is defined inside another class"""
+
+    @dataclass
+    class NestedNode(Node1):
+        pass
+
+
 @dataclass
 class StaticNode(Node0):
     """says how it is created from json with a static method instead of a class method"""
